@@ -72,6 +72,18 @@ TARGETS = [
     'secp256k1_ecdsa_s2c_verify_commit', 'secp256k1_anti_exfil_host_verify',
     'secp256k1_bppp_rangeproof_norm_product_verify', 'secp256k1_bppp_generators_parse', 'secp256k1_bppp_parse_one_of_points',
     'secp256k1_ellswift_xdh', 'secp256k1_ellswift_create',
+    # every other function of the library that decodes a scalar / field element with a range check (found by scanning src/)
+    'secp256k1_ecdsa_sig_sign', 'secp256k1_ecdsa_sign_inner', 'secp256k1_ecdsa_signature_load', 'secp256k1_ecdsa_recover',
+    'secp256k1_ecdsa_recoverable_signature_load', 'secp256k1_ecdsa_sig_recover',
+    'secp256k1_schnorrsig_challenge', 'secp256k1_schnorrsig_sign_internal',
+    'secp256k1_ec_pubkey_create_helper', 'secp256k1_ec_seckey_negate', 'secp256k1_ec_seckey_verify', 'secp256k1_keypair_seckey_load', 'secp256k1_scalar_set_b32_seckey',
+    'secp256k1_generator_load', 'secp256k1_pedersen_scalar_set_u64',
+    'secp256k1_borromean_sign', 'secp256k1_rangeproof_genrand', 'secp256k1_surjection_genrand',
+    'secp256k1_keyagg_cache_load', 'secp256k1_musig_adapt', 'secp256k1_musig_extract_adaptor', 'secp256k1_musig_keyaggcoef_internal',
+    'secp256k1_musig_nonce_gen_internal', 'secp256k1_musig_nonce_process_internal', 'secp256k1_musig_partial_sig_load', 'secp256k1_musig_secnonce_load',
+    'secp256k1_musig_session_load', 'secp256k1_nonce_function_musig',
+    'secp256k1_dleq_challenge', 'secp256k1_dleq_nonce', 'secp256k1_ecdsa_anti_exfil_signer_commit',
+    'secp256k1_whitelist_hash_pubkey', 'secp256k1_whitelist_sign', 'secp256k1_bppp_challenge_scalar', 'secp256k1_ecmult_gen_blind',
 ]
 
 
